@@ -117,7 +117,9 @@ class H(S.Hooks):
 
 
 def run(ctx, out):
-    S.run_struct(ctx, out, "C12", CFG, H, 80, 1500, RULE)
+    S.run_struct(ctx, out, "C12", CFG, H, 80, 1500, RULE + (
+        "; plus name-clash histories (struct_props.gen_clash): cells, references, child spaces, model-level references "
+        "and top-level spaces all named from one alphabet of four names"), clash=(40, 800))
 
 
 def replay(ctx, payload, out):
